@@ -164,6 +164,32 @@ func dRun(w *ndWriter, pre rValue, gotype string, pattern string) {
 		w.Write(J{"ev": "dstep", "op": "deliver", "gotype": gotype, "pattern": pattern, "m": d.m, "w": wr, "wbox": wbox, "inbox": string(inbox),
 			"pre": J{"box": pre}, "post": J{"box": postIDs}, "panic": p})
 	}
+	// Persist: every inbox through the gob codec, as a store would keep it
+	for wbox, col := range boxes {
+		pre := dIDs(col)
+		var post []int
+		var count uint
+		p := guard(func() {
+			data, err := ap.GobEncode(col)
+			if err != nil {
+				panic("gob encode: " + err.Error())
+			}
+			back, err := ap.GobDecode(data)
+			if err != nil {
+				panic("gob decode: " + err.Error())
+			}
+			oc, ok := back.(*ap.OrderedCollection)
+			if !ok {
+				panic(fmt.Sprintf("stored inbox came back as %T", back))
+			}
+			post, count = dIDs(oc), oc.Count()
+			boxes[wbox] = oc
+		})
+		if post == nil {
+			post = []int{}
+		}
+		w.Write(J{"ev": "dstep", "op": "persist", "gotype": gotype, "pattern": pattern, "w": wbox, "pre": J{"box": pre}, "post": J{"box": post, "count": count}, "panic": p})
+	}
 	final := []J{}
 	for wbox, col := range boxes {
 		final = append(final, J{"w": wbox, "box": dIDs(col), "count": col.Count()})
